@@ -14,9 +14,12 @@ META = {
                  "recorded run (stdout lines, re-read -o file, exit code) validated by TLC against ConvertTrace.tla",
     "design_ref": "DESIGN.md section 6, C14",
     "level_text": "Exhaustive on the model (all streams of <=2 messages x product option space). On the binary: the option space "
-                  "(6 window classes x 9 lifecycle-list classes incl. descending / mixed order / duplicate / unknown ids x 11 --eac sets "
-                  "incl. shadowing and ECU-qualified entries x 9 -f files in both formats, ids of 1..4 characters, x 3 orders of the "
-                  "entries of the multi-valued options x sort x 4 styles x -o = 256 608 combinations) "
+                  "(6 window classes x 9 lifecycle-list classes incl. descending / mixed order / duplicate / unknown ids x 80 --eac sets "
+                  "(shadowing / ECU-qualified entries; the grid absent | 4-char literal | short literal | regex for each of the three "
+                  "parts; alternation, prefix, anchored prefix and character-class regexes on every level) x 21 -f files (DLF and "
+                  "dlt-convert format, ids of 1..4 characters, 1..10 000 entries with the matching entry last / straddling byte 8192, "
+                  "16384, 65536, CRLF / no final newline / trailing partial record) x 3 orders of the entries of the multi-valued "
+                  "options x sort x 4 styles x -o) "
                   "is covered pairwise-complete per input set plus every option alone (quick), and as a seeded sample of 30 000 "
                   "combinations on one input set (thorough); input sets: 1-3 files, same/different ECUs, reboots, garbage, messages without "
                   "extended header, timestamps not monotone in reception order (so --sort permutes, also across -e), tied "
@@ -31,7 +34,9 @@ META = {
                   "Sel, each once, on every sink; reference run = all generated messages) is checked there, the permutation clause "
                   "is not; untied shapes may name the first file twice (legitimately de-duplicated; not combined with tied first times, where the unchanged tool reads the duplicated file twice - reported, outside the statement); with --sort only the set of emitted messages is checked "
                   "(order of sorted output may depend on thread timing), so PermuteFiles is 'identical sequence' without --sort "
-                  "and 'identical set' with --sort; only literal ECU/APID/CTID filters (the criterion language is C11); control "
+                  "and 'identical set' with --sort; -f filters are literal ECU/APID/CTID filters, --eac parts literal or the regex forms alternation / prefix / anchored "
+                  "prefix / character class with the unanchored is_match semantics of the unchanged tree (the full criterion language "
+                  "is C11); the dlt-convert format has fixed 10-byte records, so no line-ending variants exist for it; control "
                   "messages are not generated (C05/C07 known defects of the lifecycle detector are out of scope here). "
                   "Trusted: TLC, the text projection of stdout lines (index, timestamp column as message key, ids), hash31.",
 }
@@ -87,12 +92,13 @@ def pairwise(dims, rnd):
     return rows, len(allpairs)
 
 
-def singles(dims):
+def singles(dims, core):
     """every option value alone (all other options at their default), on screen and into a file"""
     res, seen = [], set()
     for p in PARAMS:
         for v in dims[p]:
-            for extra in ({}, {"ofile": True, "style": "none"}):
+            big = p in ("eac", "f") and vkey(v) not in core.get(p, ())
+            for extra in (({},) if big else ({}, {"ofile": True, "style": "none"})):
                 o = dict(DEFAULT)
                 o.update(extra)
                 o[p] = v
@@ -226,6 +232,10 @@ def check(ctx):
     if len(dims_l) != 1:
         raise c.ToolError("expected one line with the dimensions of the option space")
     dims = {p: sorted(dims_l[0][p], key=vkey) for p in PARAMS}
+    # the pairwise arrays use the core subsets of the two big dimensions; every value of the full dimensions is run alone
+    dims_core = dict(dims)
+    dims_core["eac"] = sorted(dims_l[0]["eaccore"], key=vkey)
+    dims_core["f"] = sorted(dims_l[0]["fcore"], key=vkey)
     shapes.sort(key=vkey)
     nshapes = 4 if quick else 12
     # the first set has two ECUs with three boots each: >= 4 lifecycles for the multi-id --lcs selections
@@ -235,11 +245,11 @@ def check(ctx):
     plan = []
     npairs = 0
     for k, sh in enumerate(chosen):
-        rows, npairs = pairwise(dims, rnd)
-        if sh["tie"] != "none":
-            rows = rows[::2]        # the tied sets are about the input side: half of the array
+        rows, npairs = pairwise(dims_core, rnd)
+        if k >= 2:
+            rows = rows[::2]        # full arrays on the first two sets, half arrays on the others (tied sets are about the input side)
         if k == 0:
-            rows = singles(dims) + rows
+            rows = singles(dims, {q: {vkey(x) for x in dims_core[q]} for q in ("eac", "f")}) + rows
         plan.append({"set": k + 1, "shape": sh, "opts": rows, "mode": "pairwise"})
     if not quick:
         full_shape = [s for s in shapes if len(s["ecus"]) == 3 and s["garbage"] and s["noext"] and s["boots"] == 2
@@ -268,7 +278,8 @@ def check(ctx):
     counters = {"cases": 0, "ref_cases": 0, "sel_cases": 0, "winc": {}, "lcsc": {}, "ffmt": {}, "neac": {}, "style": {}, "sort": 0,
                 "ofile": 0, "perm_non_identity": 0, "multi_file_cases": 0, "empty_output": 0, "partial_output": 0,
                 "full_output": 0, "lines": 0, "filemsgs": 0, "lifecycles_per_set": {}, "msgs_per_set": {}, "skipped_noref": 0,
-                "ord": {}, "lcs_unsorted_list_cases_with_output": 0, "lcs_duplicate_id_cases_with_output": 0,
+                "ord": {}, "eac_part_classes": {}, "eac_regex_then_short_literal_cases": 0, "filter_file_entries": {}, "filter_file_eol": {},
+                "filter_file_real_entry_at": {}, "lcs_unsorted_list_cases_with_output": 0, "lcs_duplicate_id_cases_with_output": 0,
                 "lcs_unknown_mixed_cases_with_output": 0, "eac_three_expression_cases": 0, "sets_with_4_or_more_lifecycles": 0, "jitter_sets": 0, "sorted_output_differs_from_index_order": 0, "sorted_and_e_window_cases": 0,
                 "sort_permutes_across_e_boundary": 0, "tied_first_rx_same_ecu_set_cases": 0, "tied_first_rx_different_ecu_sets_cases": 0, "dup_file_argument_cases": 0}
     seen_nontrivial = set()
@@ -358,6 +369,26 @@ def check(ctx):
                         counters["lcs_duplicate_id_cases_with_output"] += 1
                     if o["lcsc"] == "unknownmixed":
                         counters["lcs_unknown_mixed_cases_with_output"] += 1
+                for f in o["eac"]:
+                    cls = []
+                    for part in ("ecu", "apid", "ctid"):
+                        if f["rx"][part]["t"] != "none":
+                            cls.append("rx:" + f["rx"][part]["t"])
+                        elif f[part] == "":
+                            cls.append("-")
+                        else:
+                            cls.append("lit4" if len(f[part]) == 4 else "short")
+                    ck = "/".join(cls)
+                    counters["eac_part_classes"][ck] = counters["eac_part_classes"].get(ck, 0) + 1
+                    for a in range(3):
+                        if cls[a].startswith("rx") and "short" in cls[a + 1:]:
+                            counters["eac_regex_then_short_literal_cases"] += 1
+                            break
+                if o["ffmt"] != "none":
+                    fk = "%s:%d" % (o["ffmt"], o.get("fn", 0))
+                    counters["filter_file_entries"][fk] = counters["filter_file_entries"].get(fk, 0) + 1
+                    counters["filter_file_eol"][o.get("feol", "lf")] = counters["filter_file_eol"].get(o.get("feol", "lf"), 0) + 1
+                    counters["filter_file_real_entry_at"][o.get("fat", "end")] = counters["filter_file_real_entry_at"].get(o.get("fat", "end"), 0) + 1
                 if len(o["eac"]) >= 3:
                     counters["eac_three_expression_cases"] += 1
                 if o["style"] != "none" or o["ofile"]:
@@ -402,6 +433,12 @@ def check(ctx):
         return          # a violating run is reported as such; vacuity and self-test only judge clean runs
     if missing or counters["partial_output"] == 0 or counters["perm_non_identity"] == 0 or counters["filemsgs"] == 0 \
             or max(counters["lifecycles_per_set"].values() or [0]) < 2 or counters["tied_first_rx_same_ecu_set_cases"] == 0 \
+            or len([k for k in counters["eac_part_classes"] if "rx:" in k or "short" in k or "lit4" in k]) < 60 \
+            or counters["eac_regex_then_short_literal_cases"] == 0 \
+            or any(counters["filter_file_entries"].get(k, 0) == 0 for k in ("conv:30", "conv:819", "conv:820", "conv:900", "conv:2000",
+                                                                             "conv:10000", "dlf:30", "dlf:820", "dlf:2000", "dlf:10000")) \
+            or any(counters["filter_file_real_entry_at"].get(k, 0) == 0 for k in ("end", "b8192", "b16384", "b65536")) \
+            or any(counters["filter_file_eol"].get(k, 0) == 0 for k in ("lf", "crlf", "nonl", "trail")) \
             or counters["lcs_unsorted_list_cases_with_output"] == 0 or counters["lcs_duplicate_id_cases_with_output"] == 0 \
             or counters["lcs_unknown_mixed_cases_with_output"] == 0 or counters["sets_with_4_or_more_lifecycles"] == 0 \
             or counters["sorted_output_differs_from_index_order"] == 0 or counters["sort_permutes_across_e_boundary"] == 0 \
